@@ -34,18 +34,23 @@ def run(ctx):
         ctx.undecided.append("Leg D skipped (VERIF_LEGS=%s): development run only" % legs)
     elif q:
         ctx.design("Files/FileSrvD.tla", "FileSrvD_quick.cfg", workers=W, timeout=600)
-        ctx.design("Files/FileSrvD.tla", "FileSrvD_bug_quick.cfg", workers=W, timeout=600,
-                   note="normalisation as implemented (segment merging) - still nothing outside the roots")
+        ctx.design("Files/FileSrvD.tla", "FileSrvD_merge.cfg", workers=W, timeout=600, note="names that could be glued into an alias name")
     else:
         ctx.design("Files/FileSrvD.tla", "FileSrvD.cfg", workers=W, timeout=1500, heap="12g")
         ctx.design("Files/FileSrvD.tla", "FileSrvD_wide.cfg", workers=W, timeout=1500, heap="12g")
-        ctx.design("Files/FileSrvD.tla", "FileSrvD_bug.cfg", workers=W, timeout=1500, heap="12g",
-                   note="normalisation as implemented (segment merging) - still nothing outside the roots")
+        ctx.design("Files/FileSrvD.tla", "FileSrvD_merge.cfg", workers=W, timeout=600, note="names that could be glued into an alias name")
     if "D" in legs:
+        # self-tests (not counted as coverage): the design invariants bite
+        n0, g0 = ctx.states, ctx.transitions
         ctx.design("Files/FileSrvD.tla", "FileSrvD_selftest.cfg", workers=4, timeout=300, expect_violation="InsideInv",
                    note="self-test: RootCheck = FALSE")
-        ctx.states -= ctx.tlc_runs[-1]["distinct"]
-        ctx.transitions -= ctx.tlc_runs[-1]["generated"]
+        # the segment-merging normalize_path of versions before fd4e774 ("/a/b/../c" -> "/ac") serves the target of an
+        # alias the resolved path does not select (InsideInv) although nothing outside every root (NoEscape)
+        ctx.design("Files/FileSrvD.tla", "FileSrvD_mergebug.cfg", workers=4, timeout=300, expect_violation="InsideInv",
+                   note="self-test: NormBug = TRUE re-detects file-of-unselected-alias")
+        ctx.design("Files/FileSrvD.tla", "FileSrvD_mergebug_noescape.cfg", workers=4, timeout=300,
+                   note="self-test companion: NormBug = TRUE still never leaves every root")
+        ctx.states, ctx.transitions = n0, g0
 
     exe = ctx.harness("files_drv", ["files/files_drv.cpp"], extra=["-I/repo/tests"])
     jobs = []
@@ -81,7 +86,7 @@ def run(ctx):
             with open(t) as f:
                 f.readline()
                 ctx.sample({"trace": os.path.basename(t), "events": [f.readline().strip()[:300] for _ in range(3)]})
-    # the "merge" traces hit a known weakness of normalize_path many times: stop them at the first rejection
+    # the "merge" traces (names that an old normalize_path glued into an alias name) are cut at the first rejection
     mtr = [t for t in traces if os.path.basename(t).startswith("merge")]
     res = shard.parallel_validate(ctx, "Files/FileSrvTrace.tla", "FileSrvTrace.cfg", [t for t in traces if t not in mtr], threads=NT, max_rejects=3)
     res.update(shard.parallel_validate(ctx, "Files/FileSrvTrace.tla", "FileSrvTrace.cfg", mtr, threads=NT, max_rejects=1))
